@@ -205,27 +205,42 @@ func (ex *Exec) havocKey(st *State, key string) {
 
 var two64 = new(big.Int).Lsh(big.NewInt(1), 64)
 
+// rangePC: the path condition under which the range fact of a loaded value is
+// recorded. Integers are in range on every path by construction (every
+// stored integer was wrapped to its type), so the fact can be stated once for
+// all paths; the well-formedness of a slice value (bounds of the slicing
+// expression that produced it) only holds on the path that computed it.
+func (ex *Exec) rangePC(st *State, typ types.Type) *Term {
+	if b, ok := types.Unalias(typ).Underlying().(*types.Basic); ok && b.Info()&types.IsInteger != 0 {
+		return ex.ts.True()
+	}
+	return st.PC
+}
+
 func (ex *Exec) assumeRange(pc *Term, t *Term, typ types.Type) {
 	if t.IsLit() {
 		return
 	}
 	typ = types.Unalias(typ)
+	// a fact recorded under one path condition says nothing on other paths:
+	// remember (term, path condition) pairs
+	rk := t.ID*1000003 + pc.ID
 	switch u := typ.Underlying().(type) {
 	case *types.Basic:
 		lo, hi := intRange(typ)
 		if lo == nil {
 			return
 		}
-		if ex.rangeSeen[t.ID] {
+		if ex.rangeSeen[rk] {
 			return
 		}
-		ex.rangeSeen[t.ID] = true
+		ex.rangeSeen[rk] = true
 		ex.assume(pc, ex.ts.And(ex.ts.Le(ex.ts.IntBig(lo), t), ex.ts.Le(t, ex.ts.IntBig(hi))))
 	case *types.Slice:
-		if ex.rangeSeen[t.ID] {
+		if ex.rangeSeen[rk] {
 			return
 		}
-		ex.rangeSeen[t.ID] = true
+		ex.rangeSeen[rk] = true
 		ts := ex.ts
 		l := ts.SelectField(ex.tm.slice, 2, t)
 		c := ts.SelectField(ex.tm.slice, 3, t)
@@ -238,10 +253,10 @@ func (ex *Exec) assumeRange(pc *Term, t *Term, typ types.Type) {
 		if _, ok := ex.tm.isTargetStruct(typ); !ok {
 			return
 		}
-		if ex.rangeSeen[t.ID] {
+		if ex.rangeSeen[rk] {
 			return
 		}
-		ex.rangeSeen[t.ID] = true
+		ex.rangeSeen[rk] = true
 		dt := ex.tm.structDT(typ)
 		for i := 0; i < u.NumFields(); i++ {
 			ft := u.Field(i).Type()
@@ -534,7 +549,7 @@ func (ex *Exec) load(st *State, addr Value, typ types.Type) Value {
 	case Loc:
 		v := ex.loadLoc(st, p)
 		if tv, ok := v.(TV); ok {
-			ex.assumeRange(ex.ts.True(), tv.T, typ) // typed memory: in range on every path
+			ex.assumeRange(ex.rangePC(st, typ), tv.T, typ)
 			if isPointerLike(typ) {
 				ex.knownRef(st, tv.T)
 			}
@@ -547,7 +562,7 @@ func (ex *Exec) load(st *State, addr Value, typ types.Type) Value {
 		s := ex.tm.SortOf(typ)
 		arr := ex.heapGet(st, ex.tm.MemKey(typ), SArray(SInt, s))
 		t := ex.ts.Select(arr, p.T)
-		ex.assumeRange(ex.ts.True(), t, typ)
+		ex.assumeRange(ex.rangePC(st, typ), t, typ)
 		if isPointerLike(typ) {
 			ex.knownRef(st, t)
 		}
